@@ -170,7 +170,7 @@ pub fn render_field(f: &FormatField, r: &FileRecord, mode: RefMode) -> Result<St
         FormatField::ChangeFormatted(k) => format!("<strftime:%{}:{}>", k, r.ctime),
         FormatField::ModifyFormatted(k) => format!("<strftime:%{}:{}>", k, r.mtime),
         FormatField::DiskSizeBlocks => r.blocks.to_string(),
-        FormatField::DiskSizeKilos => ((r.blocks + 1) / 2).to_string(),
+        FormatField::DiskSizeKilos => ((r.blocks as u128 + 1) / 2).to_string(), // u128: blocks may be u64::MAX in a coincidence record
         FormatField::DiskSizeBytes => r.size.to_string(),
         FormatField::Basename => r.name().to_string(),
         FormatField::Group => r.group.clone(),
